@@ -3,7 +3,11 @@ from . import export, mir
 _cache = {}
 
 
+ALIAS = {}     # C20: run a rule written for one configuration against another one
+
+
 def program(*configs):
+    configs = tuple(ALIAS.get(c, c) for c in configs)
     key = tuple(configs)
     if key not in _cache:
         res = export.ensure(list(configs))
